@@ -201,7 +201,7 @@ pub fn mutate(rng: &mut Rng, base: &[u8]) -> Vec<u8> {
 
 /// the outer indefinite-length array replaced by a definite-length header announcing `count` blocks
 /// (true count, small, boundary and absurd values; minimal and non-minimal head forms)
-fn outer_definite(rng: &mut Rng, base: &[u8]) -> Vec<u8> {
+pub fn outer_definite(rng: &mut Rng, base: &[u8]) -> Vec<u8> {
     let blocks = cborx::bundle_blocks(base).map(|b| b.len() as u64).unwrap_or(1);
     let count = match rng.below(12) { 0 | 1 => blocks, 2 => blocks + 1, 3 => blocks.saturating_sub(1), 4 => 0, 5 => 1 << 28, 6 => (1 << 32) - 1, 7 => 1 << 32, 8 => 1 << 60, 9 => u64::MAX, 10 => 65_536, _ => rng.u64b() };
     let mut head = match rng.below(5) {
@@ -309,6 +309,13 @@ fn gen_c06(rng: &mut Rng, ctx: &mut Ctx, rep: &mut Report, emit: Emit) {
                 1 => { b.canonicals.truncate(1); b.canonicals[0].block_number = u64::MAX - rng.below(2); }
                 _ => { for (k, c) in b.canonicals.iter_mut().enumerate() { c.block_number = if k as u64 == n - 1 { 1 } else { u64::MAX - k as u64 } } }
             }
+        }
+        // fragment fields that relate to the payload length at the top of the range: total > offset > 2^64 - 1 - length
+        if i % 29 == 3 {
+            let len = b.payload().map(|p| p.len() as u64).unwrap_or(0).max(1);
+            b.primary.bundle_control_flags |= 1;
+            b.primary.total_data_length = *rng.pick(&[u64::MAX, u64::MAX - 1, u64::MAX - len]);
+            b.primary.fragmentation_offset = b.primary.total_data_length.saturating_sub(1 + rng.below(len));
         }
         // large but legal shapes: a long endpoint ID together with many blocks that repeat a number / a type
         if i % 397 == 5 {
@@ -442,6 +449,24 @@ fn inject(class: &str, base: &[u8], rng: &mut Rng) -> Option<Vec<u8>> {
             blk.push(0xff);
             v.splice(r.0..r.1, blk);
         }
+        "btsd-trailing" => { // the required item, well formed, followed by further bytes inside the data byte string
+            if primary { return None; }
+            let bt = cborx::read_uint(base, ch[0])?;
+            let good: Vec<u8> = match bt { 10 => vec![0x82, 0x18, 0x20, 0x00], 7 => vec![0x19, 0x03, 0xe8], 6 => vec![0x82, 0x01, 0x63, b'/', b'/', b'a'], _ => return None };
+            let extra: &[u8] = *rng.pick(&[&[0x00u8][..], &[0xff], &[0xf6], &[0x00, 0x00], &[0x82, 0x01, 0x00], &[0x40]]);
+            let mut b = good; b.extend_from_slice(extra);
+            let mut f = cbor_head(2, b.len() as u64); f.extend_from_slice(&b);
+            v.splice(ch[4].0..ch[4].1, f);
+        }
+        "ts-map" => { // the creation timestamp (or an endpoint ID) as a map keyed by position or by field name
+            if !primary { return None; }
+            let k = *rng.pick(&[6usize, 6, 6, 3, 4, 5]);
+            let maps: Vec<Vec<u8>> = vec![vec![0xa2, 0x00, 0x19, 0x03, 0xe8, 0x01, 0x05], vec![0xa2, 0x01, 0x05, 0x00, 0x19, 0x03, 0xe8], vec![0xbf, 0x00, 0x01, 0x01, 0x02, 0xff],
+                { let mut m = vec![0xa2, 0x64]; m.extend_from_slice(b"time"); m.extend_from_slice(&[0x19, 0x03, 0xe8, 0x65]); m.extend_from_slice(b"seqno"); m.push(0x05); m },
+                vec![0xa2, 0x61, b'0', 0x01, 0x61, b'1', 0x00], vec![0xa1, 0x01, 0x00]];
+            let m = rng.pick(&maps).clone();
+            v.splice(ch[k].0..ch[k].1, m);
+        }
         "btsd-map" => { // a map keyed by field position or field name where the data of a known extension block must be an array / integer
             if primary { return None; }
             let bt = cborx::read_uint(base, ch[0])?;
@@ -462,7 +487,7 @@ fn inject(class: &str, base: &[u8], rng: &mut Rng) -> Option<Vec<u8>> {
     Some(v)
 }
 
-pub const FAULT_CLASSES: [&str; 20] = ["indef-missing", "btsd-map", "btsd-retype", "missing-item", "extra-item", "ts-arity", "ipn-arity", "eid-extra", "eid-no-scheme", "scheme-unknown", "ipn-node0",
+pub const FAULT_CLASSES: [&str; 22] = ["btsd-trailing", "ts-map", "indef-missing", "btsd-map", "btsd-retype", "missing-item", "extra-item", "ts-arity", "ipn-arity", "eid-extra", "eid-no-scheme", "scheme-unknown", "ipn-node0",
     "crc-length", "crc-presence", "uint-kind", "array-kind", "bstr-kind", "btsd", "no-break", "trailing-byte", "missing-item"];
 
 fn gen_c19(rng: &mut Rng, ctx: &mut Ctx, rep: &mut Report, emit: Emit) {
